@@ -387,7 +387,7 @@ theorem C03_get_set_agg_map_list_semantics (st : Store) (s : Nat) (k : Nat) :
   · simp [agg, h]
   · simp [agg, h]
   · simp [map, h]
-  · simp [map, h]
+  · simp [map_plus_eq, h]
   · simp only [setAttr, List.map_map]
     apply List.map_congr_left
     intro a _
@@ -439,13 +439,15 @@ theorem C03_set_writes_members_only (st : Store) (s : Nat) (k : Nat) (v : Int) (
   simp only [h, if_true]
   exact ⟨by simp [Agent.setAttr, Agent.attr], fun k' hk => setAttr_attr_other a k k' v hk, rfl, rfl⟩
 
-/-- **The in-place and the copying code path build the same set.**  In the code the copying form ends in
-    `AgentSet(result, random)` and the in-place form in `self._update(result)` (`shuffle`: `self._agents.data = {…}`): both push
-    the result through the same dict comprehension, i.e. through the constructor's de-duplication; the early return of
-    `select` is `self` versus `copy.copy(self)` (= `__setstate__` → `_update(list(keys))`).  On every result the methods
-    build from a duplicate-free set that de-duplication is the identity — so the list the model stores for either flag
-    (`Store.put`) is exactly what either path of the code builds, order included. -/
-theorem C03_both_code_paths_build_the_same_set (st : Store) (h : st.WF) (s : Nat) :
+/-- **Re-building a result is the identity.**  In the code the copying form of `select` / `sort` / `shuffle` ends in
+    `AgentSet(result, random)`, the in-place form in `self._update(result)` (`shuffle`: `self._agents.data = {…}`), the early
+    return of `select` in `self` versus `copy.copy(self)`, `groupby(result_type="agentset")` in one constructor call per group:
+    each pushes its result through a dict comprehension, i.e. through a de-duplication.  On every result these methods build
+    from a duplicate-free set that de-duplication changes nothing, order included — which is why the model may store the
+    result list as it is (`Store.put`) for either flag.
+    (Review 3, M16: the former name "both code paths build the same set" claimed more — the two paths themselves are not in
+    the model; that they agree on the real code is what the correspondence tie checks, `inplace` being part of every op.) -/
+theorem C03_rebuilding_a_result_is_the_identity (st : Store) (h : st.WF) (s : Nat) :
     dedup (st.get s) = st.get s ∧
     (∀ pred ty am, dedup (selectIds st (st.get s) pred ty am) = selectIds st (st.get s) pred ty am) ∧
     (∀ (key : Nat → Int) asc, dedup (sortL key asc (st.get s)) = sortL key asc (st.get s)) ∧
@@ -593,9 +595,9 @@ theorem C03_agg_min_max_and_error_arms (st : Store) (s k : Nat) :
       exact ⟨rest.foldl min v, rest.foldl max v, by simp [agg, h], by simp [agg, h], m1, x1, fun x hx => ⟨m2 x hx, x2 x hx⟩⟩
   · cases f <;> simp [agg, h]
   · simp [map, h]
-  · simp [map, h]
-  · by_cases he : st.get s = [] <;> simp [map, he]
-  · simp [map, hne]
+  · simp [map_plus_eq, h]
+  · by_cases he : st.get s = [] <;> simp [map_nosuch_eq, he]
+  · simp [map_nosuch_eq, hne]
 
 example : agg { pop := [⟨0, 0, [(0, 4)]⟩, ⟨1, 0, [(0, -2)]⟩, ⟨2, 0, [(0, 7)]⟩], sets := [[0, 1, 2], []], rng := ⟨[]⟩ } 0 0 .min = .ok (-2) ∧
     agg { pop := [⟨0, 0, [(0, 4)]⟩, ⟨1, 0, [(0, -2)]⟩, ⟨2, 0, [(0, 7)]⟩], sets := [[0, 1, 2], []], rng := ⟨[]⟩ } 0 0 .max = .ok 7 ∧
@@ -634,46 +636,97 @@ example : (kill (select demo 0 none (some 0) .inf false).1 2).sets = [[0, 1, 3, 
 example : (setop demo .xor 0 (.list [4, 4, 7])).1.get 1 = [0, 1, 2, 3, 7] ∧
     (pop demo 0).toOption.map (·.2) = some 0 := by decide
 
-/-- **`map` by name calls what the attribute lookup on each *agent* yields** — `[getattr(a, name)(d) for a in members]`:
-    the name of a staticmethod is called with the arguments alone (no agent), the name of a classmethod with the agent's exact
-    class, the name of a callable stored on the instances calls that callable (not a class-level method of the same name),
-    raising `AttributeError` iff a member lacks the attribute it reads; and whatever kind of name or callable is mapped, a
-    successful `map` returns exactly one result per member. -/
+/-- the method name and the argument a `map` by name is called with (`none`: a callable was passed) -/
+def MapFn.named : MapFn → Option (Name × Int)
+  | .dbl _ => none
+  | .plus k d => some (.plus k, d)
+  | .nosuch => some (.nosuch, 0)
+  | .stat d => some (.base, d)
+  | .cls d => some (.rank, d)
+  | .own k d => some (.own k, d)
+
+/-- the reading the property rejects (seeded change `C03-r4-map-by-name-resolved-on-class`): the name is resolved on the
+    agent's *class* and the result is called with the agent put in front of the arguments —
+    `getattr(type(agent), name)(agent, d)`.  A plain function then behaves like the bound method; a staticmethod and a
+    classmethod get one positional argument too many; the instance `__dict__` is never consulted. -/
+def callOnClass (st : Store) (name : Name) (d : Int) (i : Nat) : Except Err Int :=
+  match classEntry (st.agent i).ty name with
+  | none => .error .attr
+  | some (.function b) => b.call st (.agent i) d
+  | some (.staticmethod _) | some (.classmethod _) | some (.object _) => .error .type
+
+/-- **`map` by name calls what the attribute lookup on each *agent* yields** — `[getattr(a, name)(d) for a in members]`,
+    with `getattr` modelled as Python's lookup (`resolve`: instance `__dict__` unbound, then the class entry through its
+    `__get__`) over the harness' class and instance dictionaries:
+    * a `map` by name that returns, returns position by position what `getattr(member, name)(d)` returns; one that raises,
+      raises what the *first* member whose call raises raised, every member before it having been called successfully;
+    * hence (derived from the lookup, not written into `map`): the name of a staticmethod is called with the arguments alone
+      (`2 * d` whoever the agent is), the name of a classmethod with the agent's exact class, the name of a callable stored
+      on the instances calls that callable (`3 * a.k + d`, not the class-level method of the same name, `-999`), raising
+      `AttributeError` iff a member lacks the attribute it reads;
+    * resolving the name on the class instead (`callOnClass`) is the same thing for a plain instance method — which is why
+      such methods alone cannot tell the two readings apart — and a different thing for the other three kinds;
+    * whatever is mapped, a successful `map` returns exactly one result per member. -/
 theorem C03_map_by_name_is_the_agents_own_attribute (st : Store) (s : Nat) (k : Nat) (d : Int) :
+    (∀ f name d', MapFn.named f = some (name, d') →
+      (∀ vs : List Int, map st s f = .ok vs → ∀ (j i : Nat), (st.get s)[j]? = some i → ∃ v, vs[j]? = some v ∧ callByName st name d' i = .ok v) ∧
+      (∀ e : Err, map st s f = .error e → ∃ (pre : List Nat) (i : Nat) (post : List Nat), st.get s = pre ++ i :: post ∧ callByName st name d' i = .error e ∧
+        ∀ j ∈ pre, ∃ v, callByName st name d' j = .ok v)) ∧
     map st s (.stat d) = .ok ((st.get s).map fun _ => 2 * d) ∧
     map st s (.cls d) = .ok ((st.get s).map fun i => ((st.agent i).ty : Int) + d) ∧
     (∀ vs, (st.get s).mapM (fun i => (st.agent i).attr k) = some vs →
       map st s (.own k d) = .ok (vs.map (3 * · + d))) ∧
     ((st.get s).mapM (fun i => (st.agent i).attr k) = none → map st s (.own k d) = .error .attr) ∧
+    (∀ i, callOnClass st (.plus k) d i = callByName st (.plus k) d i ∧
+      callOnClass st .base d i ≠ callByName st .base d i ∧ callOnClass st .rank d i ≠ callByName st .rank d i ∧
+      (∀ v, (st.agent i).attr k = some v →
+        callByName st (.own k) d i = .ok (3 * v + d) ∧ callOnClass st (.own k) d i = .ok (-999))) ∧
     (∀ f vs, map st s f = .ok vs → vs.length = (st.get s).length) := by
-  refine ⟨rfl, rfl, fun vs h => by simp [map, h], fun h => by simp [map, h], fun f vs h => ?_⟩
-  cases f with
-  | dbl k' =>
-    simp only [map] at h
-    cases hm : (st.get s).mapM (fun i => (st.agent i).attr k') with
-    | none => simp [hm] at h
-    | some ws => simp [hm] at h; subst h; simp [mapM_some_length _ _ _ hm]
-  | plus k' d' =>
-    simp only [map] at h
-    cases hm : (st.get s).mapM (fun i => (st.agent i).attr k') with
-    | none => simp [hm] at h
-    | some ws => simp [hm] at h; subst h; simp [mapM_some_length _ _ _ hm]
-  | nosuch =>
-    simp only [map] at h
-    split at h
-    · rename_i he; simp at h; subst h; simp [he]
-    · simp at h
-  | stat d' => simp [map] at h; subst h; simp
-  | cls d' => simp [map] at h; subst h; simp
-  | own k' d' =>
-    simp only [map] at h
-    cases hm : (st.get s).mapM (fun i => (st.agent i).attr k') with
-    | none => simp [hm] at h
-    | some ws => simp [hm] at h; subst h; simp [mapM_some_length _ _ _ hm]
+  have hmap : ∀ f name d', MapFn.named f = some (name, d') → map st s f = mapE (callByName st name d') (st.get s) := by
+    intro f name d' h
+    cases f <;> simp [MapFn.named] at h <;> obtain ⟨rfl, rfl⟩ := h <;> rfl
+  refine ⟨fun f name d' hn => ⟨fun vs h => ?_, fun e h => ?_⟩, ?_, ?_, fun vs h => by simp [map_own_eq, h],
+    fun h => by simp [map_own_eq, h], fun i => ⟨rfl, ?_, ?_, fun v hv => ⟨by rw [callByName_own, hv], rfl⟩⟩, fun f vs h => ?_⟩
+  · rw [hmap f name d' hn] at h
+    exact mapE_getElem _ _ _ h
+  · rw [hmap f name d' hn] at h
+    exact mapE_error _ _ _ h
+  · exact mapE_ok_of_forall _ _ _ (fun i _ => callByName_base st d i)
+  · exact mapE_ok_of_forall _ _ _ (fun i _ => callByName_rank st d i)
+  · simp [callOnClass, classEntry, callByName_base]
+  · simp [callOnClass, classEntry, callByName_rank]
+  · cases hf : MapFn.named f with
+    | some p =>
+      obtain ⟨name, d'⟩ := p
+      rw [hmap f name d' hf] at h
+      exact mapE_length _ _ _ h
+    | none =>
+      cases f <;> simp [MapFn.named] at hf
+      rename_i k'
+      simp only [map] at h
+      cases hm : (st.get s).mapM (fun i => (st.agent i).attr k') with
+      | none => simp [hm] at h
+      | some ws => simp [hm] at h; subst h; simp [mapM_some_length _ _ _ hm]
 
 /-- non-vacuity: a mixed set; the staticmethod ignores the agents, the classmethod sees their classes, the per-instance callable their x -/
 example : (map demo 0 (.stat 3)).toOption = some ((demo.get 0).map fun _ => 6) ∧ demo.get 0 ≠ [] ∧
     (map demo 0 (.cls 1)).toOption = some ((demo.get 0).map fun i => ((demo.agent i).ty : Int) + 1) ∧
     (map demo 0 (.own 0 2)).toOption.map (·.length) = some (demo.get 0).length := by decide
+
+/-- the two readings on the mixed set: the agent's own lookup gives `[8, 5, 8, 5, 8]` for `own0(2)`, the class lookup the
+    decoy's `-999`; `base` / `rank` resolved on the class and handed the agent raise `TypeError`; agent 1 has no `y`… it has:
+    `plus1` raises `AttributeError` at the first member (agent 0) under either reading -/
+example : map demo 0 (.own 0 2) = .ok [8, 5, 8, 5, 8] ∧ mapE (callOnClass demo (.own 0) 2) (demo.get 0) = .ok [-999, -999, -999, -999, -999] ∧
+    mapE (callOnClass demo .base 3) (demo.get 0) = .error .type ∧ mapE (callOnClass demo .rank 3) (demo.get 0) = .error .type ∧
+    map demo 0 (.plus 1 0) = .error .attr ∧ mapE (callOnClass demo (.plus 1) 0) (demo.get 0) = .error .attr ∧
+    callByName demo (.plus 1) 4 1 = .ok 9 := ⟨by rfl, by rfl, by rfl, by rfl, by rfl, by rfl, by rfl⟩
+
+/-- the lookup itself: an instance entry wins over any class entry and is not bound; a class-level function binds the agent,
+    a staticmethod nothing, a classmethod the class; no entry anywhere = `AttributeError` -/
+example : resolve (some (.object (.triple 7 0))) (some (.function .decoy)) 7 2 = some (.triple 7 0, .nothing) ∧
+    resolve (some (.function .decoy)) none 7 2 = some (.decoy, .nothing) ∧
+    resolve none (some (.function .decoy)) 7 2 = some (.decoy, .agent 7) ∧
+    resolve none (some (.staticmethod .twice)) 7 2 = some (.twice, .nothing) ∧
+    resolve none (some (.classmethod .rankPlus)) 7 2 = some (.rankPlus, .cls 2) ∧ resolve none none 7 2 = none := by decide
 
 end Mesa.ASet
